@@ -54,6 +54,12 @@ def read_fault_rewrite(c, inv=None):
     return dict(when=z3.BoolVal(True), exact=False, ensures=lambda c2: (inv or dbinv)(c2.self) + untouched_or_invalidated(c2))
 
 
+def write_fault(c, inv=None):
+    """C13 at database level: a storage write that fails raises to the caller and leaves the database invariant intact - in particular the index
+    is never left valid over contents it does not describe (storage may hold the old contents, the new ones, or old + a prefix of appended rows)"""
+    return dict(when=z3.BoolVal(True), exact=False, ensures=lambda c2: (inv or dbinv)(c2.self))
+
+
 def _wfquery(c):
     return [("query_wellformed", wfq(c.query.t))]
 
@@ -340,6 +346,8 @@ class _reset_database(Contract):
     """C02: remove_all leaves an empty storage and an index that is empty-and-valid (auto_index) or invalid."""
     params = dict(self=DB)
     modifies = ("_storage", "_index", "_measurements")
+    raises = {"WriteFault": staticmethod(lambda c: dict(when=z3.BoolVal(True), exact=False, ensures=lambda c2: dbinv_no_temp(c2.self) + [
+        ("temp_untouched", c2.self.t["_storage"].t["temp"].t == c2.old.self.t["_storage"].t["temp"].t)]))}
 
     @staticmethod
     def ensures(c):
@@ -368,7 +376,7 @@ class _remove_helper(Contract):
     modifies = ("_storage", "_index", "_measurements")
     theories = ("queries", "dbqueries", "count", "count_lemmas", "count_lemmas2")
     locals = dict(removed_items=SInt)
-    raises = {"ReadFault": staticmethod(lambda c: read_fault_rewrite(c, dbinv_no_temp))}
+    raises = {"ReadFault": staticmethod(lambda c: read_fault_rewrite(c, dbinv_no_temp)), "WriteFault": staticmethod(lambda c: write_fault(c, dbinv_no_temp))}
     ghost_after = [("index_rst = self._index.search", "__cut__('index_is_selection')"),
                    ("for i, item in enumerate(self._storage)", "__cut__('removed_is_selection')")]
     cuts = {"index_is_selection": lambda c: [("sets_equal", c.index_rst.t["_items"].t == c.Asel.t)],
@@ -433,7 +441,7 @@ class _remove_helper(Contract):
 
 
 WRITE_RAISES = {"OSError": staticmethod(lambda c: dict(when=z3.Not(z3.And(c.self.t["_storage"].t["readable"].t, c.self.t["_storage"].t["writable"].t)))),
-                "ReadFault": staticmethod(lambda c: read_fault_rewrite(c))}
+                "ReadFault": staticmethod(lambda c: read_fault_rewrite(c)), "WriteFault": staticmethod(lambda c: write_fault(c))}
 
 
 @contract(_TF + "remove")
@@ -468,7 +476,7 @@ class _remove(Contract):
 class _remove_all(Contract):
     params = dict(self=DB)
     modifies = ("_storage", "_index", "_measurements")
-    raises = {"OSError": staticmethod(lambda c: dict(when=z3.Not(c.self.t["_storage"].t["writable"].t)))}
+    raises = {"OSError": staticmethod(lambda c: dict(when=z3.Not(c.self.t["_storage"].t["writable"].t))), "WriteFault": staticmethod(lambda c: write_fault(c))}
 
     @staticmethod
     def requires(c):
@@ -573,7 +581,9 @@ class _insert_helper(Contract):
         pre = inserted_prefix(items1, items0, pts, k, c.measurement, NOW)
         return [("prefix_before_offending_element_inserted", z3.Exists([k], z3.And(first_non_point(pts, k), *[f for _, f in pre])))] + dbinv(c.self)
 
-    raises = {"TypeError": staticmethod(lambda c: _insert_helper._raises(c))}
+    raises = {"TypeError": staticmethod(lambda c: _insert_helper._raises(c)),
+              "WriteFault": staticmethod(lambda c: dict(when=z3.BoolVal(True), exact=False, ensures=lambda c2: dbinv_no_temp(c2.self) + [
+                  ("temp_untouched", c2.self.t["_storage"].t["temp"].t == c2.old.self.t["_storage"].t["temp"].t)]))}
 
     @staticmethod
     def ensures(c):
@@ -628,7 +638,7 @@ class _insert_helper(Contract):
     loops = {0: dict(inv=lambda c: _insert_helper._inv(c))}
 
 
-APPEND_RAISES = {"OSError": staticmethod(lambda c: dict(when=z3.Not(c.self.t["_storage"].t["appendable"].t)))}
+APPEND_RAISES = {"OSError": staticmethod(lambda c: dict(when=z3.Not(c.self.t["_storage"].t["appendable"].t))), "WriteFault": staticmethod(lambda c: write_fault(c))}
 
 
 @contract(_TF + "insert")
@@ -760,7 +770,8 @@ class _update_helper(Contract):
     raises = {"ValueError": staticmethod(lambda c: dict(when=bad_update_args(*[getattr(c, a).t for a in UPD_ARGS]),
                                                         ensures=lambda cc: [("nothing_changed", z3.And(cc.self.t["_storage"].t["items"].t == cc.old.self.t["_storage"].t["items"].t,
                                                                                                      cc.self.t["_storage"].t["temp"].t == cc.old.self.t["_storage"].t["temp"].t))] + dbinv(cc.self))),
-              "UserError": staticmethod(lambda c: _update_helper._exc(c)), "ReadFault": staticmethod(lambda c: read_fault_rewrite(c, dbinv_no_temp))}
+              "UserError": staticmethod(lambda c: _update_helper._exc(c)), "ReadFault": staticmethod(lambda c: read_fault_rewrite(c, dbinv_no_temp)),
+              "WriteFault": staticmethod(lambda c: write_fault(c, dbinv_no_temp))}
 
     @staticmethod
     def ensures(c):
